@@ -154,7 +154,7 @@ pub fn run_search_chunked(
                             }
                         }
                         for v in out.violations {
-                            if found.len() < MAX_FOUND {
+                            if found.len() < MAX_FOUND && found.iter().filter(|f: &&Found| f.violation.class == v.class).count() < 8 {
                                 found.push(Found {
                                     origin,
                                     index: i,
@@ -398,7 +398,7 @@ pub fn run_enumeration(values: &[ValueSpec], workers: usize) -> BatchResult {
                             samples.push(serde_json::json!({"value_index": vi, "plan_index": idx, "case": out.summary}));
                         }
                         for v in out.violations {
-                            if found.len() < MAX_FOUND {
+                            if found.len() < MAX_FOUND && found.iter().filter(|f: &&Found| f.violation.class == v.class).count() < 8 {
                                 found.push(Found {
                                     origin: "enumeration",
                                     index: ((vi as u64) << 32) | idx,
@@ -1006,7 +1006,7 @@ pub fn run_baseline_only(values: &[ValueSpec]) -> BatchResult {
             plan.reads = ALL_DELIVERIES.iter().map(|d| ReadPlan { delivery: *d, sched: vec![] }).collect();
             let out = execute(&plan, None, &mut stats);
             for viol in out.violations {
-                if found.len() < MAX_FOUND {
+                if found.len() < MAX_FOUND && found.iter().filter(|f: &&Found| f.violation.class == viol.class).count() < 8 {
                     found.push(Found {
                         origin: "algebra-corpus",
                         index: i as u64,
